@@ -221,3 +221,74 @@ def rand_set(rng, res=None, maxsize=3000):
     cells = list(cells)[:maxsize]
     rng.shuffle(cells)
     return cells
+
+
+# ---------------------------------------------------------------- polygons (lat/lng in radians)
+import math as _m
+
+
+def _f2bits(x):
+    import struct
+    return struct.pack(">d", x).hex()
+
+
+def poly_str(loops):
+    """loops: list of lists of (lat,lng); loop 0 = outer"""
+    s = [str(len(loops))]
+    for lp in loops:
+        s.append(str(len(lp)))
+        for la, ln in lp:
+            s.append(_f2bits(la)); s.append(_f2bits(ln))
+    return " ".join(s)
+
+
+def ngon(lat, lng, radius, n, rng=None, jitter=0.0, phase=0.0, squash=1.0):
+    pts = []
+    for i in range(n):
+        ang = phase + 2 * _m.pi * i / n
+        r = radius * (1 + (rng.uniform(-jitter, jitter) if rng else 0))
+        la = lat + r * _m.sin(ang) * squash
+        ln = lng + r * _m.cos(ang) / max(0.2, _m.cos(lat))
+        la = max(-1.45, min(1.45, la))
+        pts.append((la, ln))
+    return pts
+
+
+def norm_lng(x):
+    while x > _m.pi:
+        x -= 2 * _m.pi
+    while x < -_m.pi:
+        x += 2 * _m.pi
+    return x
+
+
+def rand_polygon(rng, where=None, kind=None):
+    """well-formed polygon: simple outer loop, optional holes inside, edges < 180 deg, no pole inside.
+    returns (loops, (lat,lng,radius))"""
+    kind = kind if kind is not None else rng.choice(["convex", "concave", "needle", "holes", "anti", "tiny"])
+    lat = rng.uniform(-1.2, 1.2) if where is None else where[0]
+    lng = rng.uniform(-3.1, 3.1) if where is None else where[1]
+    radius = rng.choice([0.002, 0.01, 0.03, 0.08])
+    if kind == "anti":
+        lng = _m.pi - rng.uniform(0, radius * 0.8) * rng.choice([-1, 1])
+    n = rng.randrange(3, 9)
+    if kind == "concave":
+        outer = ngon(lat, lng, radius, 2 * n, None, phase=rng.uniform(0, 1))
+        outer = [(la if i % 2 == 0 else lat + (la - lat) * 0.45, ln if i % 2 == 0 else lng + (ln - lng) * 0.45)
+                 for i, (la, ln) in enumerate(outer)]
+    elif kind == "needle":
+        outer = ngon(lat, lng, radius, 4, None, phase=rng.uniform(0, 3), squash=0.02)
+    elif kind == "tiny":
+        radius = 1e-5
+        outer = ngon(lat, lng, radius, n, rng, jitter=0.2)
+    else:
+        outer = ngon(lat, lng, radius, n, rng, jitter=0.25, phase=rng.uniform(0, 1))
+    loops = [outer]
+    if kind == "holes":
+        nh = rng.randrange(1, 4)
+        for h in range(nh):
+            ang = 2 * _m.pi * h / nh
+            loops.append(ngon(lat + 0.4 * radius * _m.sin(ang), lng + 0.4 * radius * _m.cos(ang) / max(0.2, _m.cos(lat)),
+                              radius * 0.12, rng.randrange(3, 6), None))
+    loops = [[(la, norm_lng(ln)) for la, ln in lp] for lp in loops]
+    return loops, (lat, lng, radius)
